@@ -4,21 +4,25 @@
 (*            Players!P: LogicBlockState -> [x, v, en, done], missing variables -> the NoP defaults)     *)
 (*   e.live - what the device objects and the mode controller show (shape of Players!Live)              *)
 (*   e.evs  - the player_<var> events delivered during the action: <<var, value, prev_value, change, player_num>> *)
+(*   e.tevs - the same for the string/None/int variables, values written as in Players!TVals            *)
+(*   e.cur  - the number of the player who is up (game.player), e.turn - the player the game modes hold  *)
+(*            (Mode.player; judged during a ball only)                                                   *)
 (* The model follows the logged actions; the monitors (INVARIANTs of the trace cfg, evaluated on the    *)
 (* last consumed line o and the model state) carry the statement of C11.                                *)
 EXTENDS Players, TraceIO
-VARIABLES tid, l, o, pcur
-tvars == <<vars, tid, l, o, pcur>>
+VARIABLES tid, l, o, pcur, dead
+tvars == <<vars, tid, l, o, pcur, dead>>
 TL == TraceLines[tid].ev
 TConfigs == {}
-TInit == /\ tid \in 1..Len(TraceLines) /\ l = 1 /\ o = [op |-> "init"] /\ pcur = 0
+TInit == /\ tid \in 1..Len(TraceLines) /\ l = 1 /\ o = [op |-> "init"] /\ pcur = 0 /\ dead = FALSE
          /\ cfg = TraceLines[tid].cfg /\ ph = "idle" /\ np = 0 /\ cur = 0 /\ P = [p \in Players |-> NoP] /\ bound = NoBound
-         /\ vol = Vol0 /\ ending = FALSE /\ evs = {} /\ act = [op |-> "init"] /\ nops = 0 /\ nadv = 0 /\ ngames = 0 /\ bops = 0
+         /\ vol = Vol0 /\ ending = FALSE /\ evs = {} /\ tevs = {} /\ act = [op |-> "init"] /\ nops = 0 /\ nadv = 0 /\ ngames = 0 /\ bops = 0
 \* the achievement's own transition table is not part of the statement: the new state is taken from the log
 ObsAch(e) == IF cur \in 1..Len(e.pl) THEN e.pl[cur].ach ELSE "none"
 TStep(e) ==
     \/ e.op = "newgame" /\ NewGame
     \/ e.op = "modereq" /\ ModeReq(e.m)
+    \/ e.op = "latereq" /\ LateReq(e.m, e.run)
     \/ e.op = "turnstart" /\ TurnStart
     \/ e.op = "addplayer" /\ AddPlayer
     \/ e.op = "score" /\ Score
@@ -29,16 +33,29 @@ TStep(e) ==
     \/ e.op = "rotate" /\ Rotate
     \/ e.op = "ach" /\ Ach(e.kind, ObsAch(e))
     \/ e.op = "modestart" /\ ModeStart
-    \/ e.op = "modestop" /\ ModeStop
+    \/ e.op = "modestop" /\ ModeStop(e.h)
+    \/ e.op = "release" /\ Release
+    \/ e.op = "settv" /\ SetTV(e.q, e.var, e.val)
     \/ e.op = "timer" /\ Timer(e.kind)
     \/ e.op = "adv" /\ Adv
-    \/ e.op = "ballend" /\ BallEnd
+    \/ e.op = "ballend" /\ BallEnd(e.h)
     \/ e.op = "endgame" /\ EndGame
-TNext == l <= Len(TL) /\ TStep(TL[l]) /\ o' = TL[l] /\ pcur' = cur /\ l' = l + 1 /\ UNCHANGED tid
+\* Code-as-is deviation "LateModeStart" (contradicts the statement; only allowed when named in Deviations): a game mode
+\* started while the ended ball waited for another mode's stop is not stopped when the ball finally ends - it is still
+\* running, attached to the player who played that ball, when the turn is over (e.turn = 0) and the next player is up
+\* (with a single player: the same player's next ball finds it running instead of starting it).  What the model would say from
+\* there on is not defined: the rest of such a trace is not judged (dead).
+\* (Without the name in Deviations no step explains that line: the trace is rejected there.)
+DevLate(e) == e.op = "release" /\ ph = "ending" /\ bound.gm1 = cur /\ e.live.g1 /\ e.turn = 0
+TNext == /\ l <= Len(TL)
+         /\ IF dead THEN dead' = TRUE /\ UNCHANGED vars
+            ELSE IF DevLate(TL[l]) THEN "LateModeStart" \in Deviations /\ dead' = TRUE /\ UNCHANGED vars
+            ELSE dead' = FALSE /\ TStep(TL[l])
+         /\ o' = TL[l] /\ pcur' = cur /\ l' = l + 1 /\ UNCHANGED tid
 TSpec == TInit /\ [][TNext]_tvars
 Reporter == TraceReport(tid, l, Len(TL))
 \* ---- monitors ---------------------------------------------------------------------------------------------------
-Seen == o.op # "init"
+Seen == o.op # "init" /\ ~dead
 NPl == IF Seen THEN Len(o.pl) ELSE 0
 \* Frame: whatever happened while pcur was up, every other player's variables and persisted device state are
 \* exactly what they were (the model's P[q] for q # pcur is unchanged by construction: Players!Frame)
@@ -51,11 +68,18 @@ FreshOK == Seen => /\ (o.op = "newgame" => NPl = 1 /\ o.pl[1] = InitP /\ SameLiv
                    /\ (o.op = "addplayer" => NPl = np /\ o.pl[np] = P[np])
                    /\ (ph = "idle" => NPl = 0 /\ o.live.g1 = FALSE /\ o.live.g2 = FALSE)
 \* Restore: when a ball has just started for cur, the devices show what cur owned, and cur's record is what was saved
-BallStarted == o.op = "turnstart" \/ (o.op \in {"ballend", "endgame"} /\ ph = "ball")
+BallStarted == o.op = "turnstart" \/ (o.op \in {"ballend", "endgame", "release"}/\ ph = "ball")
 RestoreOK == Seen /\ BallStarted => NPl = np /\ o.pl[cur] = P[cur] /\ SameLive(o.live, Live)
 \* VarEvent: the real (value or change non-zero) player_<var> events are exactly the model's, each once
 RealEvs == SelectSeq(o.evs, LAMBDA x : x[4] # 0 \/ x[2] # x[3])
-VarEventOK == Seen => SeqToSet(RealEvs) = evs /\ Len(RealEvs) = Cardinality(evs)
+RealT(x) == Truthy(x[4]) \/ x[2] # x[3]
+RealTEvs == SelectSeq(o.tevs, RealT)
+ModelTEvs == {x \in tevs : RealT(x)}
+VarEventOK == Seen => /\ SeqToSet(RealEvs) = evs /\ Len(RealEvs) = Cardinality(evs)
+                      /\ SeqToSet(RealTEvs) = ModelTEvs /\ Len(RealTEvs) = Cardinality(ModelTEvs)
+\* whose turn it is: the player who is up, and (during a ball) the player the game modes work for; an ended ball that
+\* waits for a mode to stop is still the turn of the player who played it
+TurnOK == Seen => o.cur = cur /\ (ph \in {"ball", "ending"} => o.turn = cur)
 \* the devices show the current player's state (or nothing when their mode is not running)
 LiveOK == Seen => SameLive(o.live, Live)
 \* the acting player's own record follows the model
